@@ -15,7 +15,7 @@ func c15Gen(r *rand.Rand, tier string) []spec.Case {
 	var out []spec.Case
 	n := 36
 	if tier == "thorough" {
-		n = 600
+		n = 2000
 	}
 	for i := 0; i < n; i++ {
 		proto := []string{"netrpc", "grpc"}[i%2]
@@ -271,7 +271,7 @@ func init() {
 				r.Inconcl = append(r.Inconcl, fmt.Sprintf("too little observed: %v", r.Counters))
 			}
 		},
-		Rule: "cases = seeded histories (2-10 steps) over {reattach from the original client's config, reattach from a reattached client's own config (second generation), put/get through any client, a concurrent put/get phase through two clients with unique values, kill through any client, reattach after death} for net/rpc and gRPC against a real plugin process; plus in-process test-mode servers (own host process each): reattach, second-generation reattach, Kill on reattached clients, fresh reattach+call afterwards, cancel => CloseCh. Oracles: a reference {alive,dead} state machine with a sequential store, instance-id equality, /proc state, errors.Is(ErrProcessNotFound), and a porcupine per-key register check of the concurrent phase. Class = mode|protocol|step names",
+		Rule:        "cases = seeded histories (2-10 steps) over {reattach from the original client's config, reattach from a reattached client's own config (second generation), put/get through any client, a concurrent put/get phase through two clients with unique values, kill through any client, reattach after death} for net/rpc and gRPC against a real plugin process; plus in-process test-mode servers (own host process each): reattach, second-generation reattach, Kill on reattached clients, fresh reattach+call afterwards, cancel => CloseCh. Oracles: a reference {alive,dead} state machine with a sequential store, instance-id equality, /proc state, errors.Is(ErrProcessNotFound), and a porcupine per-key register check of the concurrent phase. Class = mode|protocol|step names",
 		Assumptions: []string{"instance id = random value minted at plugin start and reported by every call", "CloseCh must close within 20 s of cancel"},
 	})
 }
